@@ -65,6 +65,10 @@ func runC05(c *Ctx) {
 	}
 	c.St.Exhaustive = append(c.St.Exhaustive, fmt.Sprintf("exhaustive: all %d sequences of %d operations from a menu of %d on the heap {L1=[1,2,3], L2=[], O1={a:L2}}", total, k, len(menu)))
 
+	c.derivedCorners("C05")
+	c.typedSlices()
+	c.rawBytes("C05")
+
 	// stratum 2: capacity histories (the slice of spare capacity behind the visible elements)
 	for grow := 0; grow <= c.N(6, 10); grow++ {
 		for shrink := 0; shrink <= grow && shrink <= 3; shrink++ {
@@ -160,4 +164,49 @@ func runC05(c *Ctx) {
 		c.St.Eval(fmt.Sprintf("rand:%d:%d:%d", i, steps, m.Lines-before), steps >= 3)
 		c.St.Count(fmt.Sprintf("program_length_%d0s", steps/10))
 	}
+}
+
+// typedSlices: NewListFrom / Add of native slices whose element type is a container interface, with nil members,
+// and every observer on the result (a nil List / Object member is stored as nil).
+func (c *Ctx) typedSlices() {
+	m := c.M
+	m.Case("typed-slices")
+	in1 := m.NewList(gvInt(1))
+	in2 := m.NewList()
+	o1 := m.NewObject(gvStr("k"), gvInt(1))
+	srcs := []*GV{
+		{K: '(', Fl: 'l', Xs: []*GV{m.RefGV(in1), gvNil(), m.RefGV(in2), gvNil()}},
+		{K: '(', Fl: 'o', Xs: []*GV{gvNil(), m.RefGV(o1)}},
+		{K: '(', Fl: 'l', Xs: []*GV{gvNil()}},
+		{K: '(', Fl: 'o', Xs: []*GV{gvNil()}},
+		{K: '(', Fl: 'a', Xs: []*GV{gvNil(), m.RefGV(in1), {K: '(', Fl: 'l', Xs: []*GV{gvNil(), m.RefGV(in2)}}}},
+		{K: '(', Fl: 's', Xs: []*GV{gvStr(""), gvStr("a")}},
+		{K: '(', Fl: 'i', Xs: []*GV{gvInt(0), gvInt(-1)}},
+		{K: '(', Fl: 'f', Xs: []*GV{gvFloat(0), gvFloat(1.5)}},
+		{K: '(', Fl: 'b', Xs: []*GV{{K: 'b', B: false}, {K: 'b', B: true}}},
+	}
+	for _, g := range srcs {
+		added := m.NewList(gvStr("head"))
+		m.Add(added, g)
+		for _, l := range []string{m.NewListFrom(g), added} {
+			if l == "" {
+				continue
+			}
+			n := m.L(l).Count()
+			for i := 0; i < n; i++ {
+				m.TypeOf(l, i)
+				m.Get(l, i)
+			}
+			m.Slice(l)
+			m.Contains(l, gvNil())
+			m.IndexOf(l, gvNil())
+			m.Contains(l, m.RefGV(in2))
+			m.IndexOf(l, m.RefGV(o1))
+			m.Reverse(l)
+			s := m.SubList(l, 0, 0)
+			m.Concat(l, s)
+			m.Pop(l)
+		}
+	}
+	c.St.Eval("typed-slices", true)
 }
